@@ -1,7 +1,7 @@
 """X01 - specification coverage BEYOND the listed properties (not registered in MANIFEST.json; `./check X01`).
 The specifications keep growing to cover more of numqi's behaviour; parts that belong to none of C01..C20 are decided here, so
 that a defect in them can never be reported against a listed property.
-specs: specs/extra/{MC_Qudit,MC_SymplecticGS,MC_PauliOrbit,MC_SymBasis,MC_SchurWeyl,MC_GroupMisc}.tla"""
+specs: specs/extra/{MC_Qudit,MC_SymplecticGS,MC_PauliOrbit,MC_SymBasis,MC_SchurWeyl,MC_GroupMisc,MC_ClosedGME}.tla"""
 import itertools, math, random
 import numpy as np
 from .. import tlc, core
@@ -325,6 +325,28 @@ def run_groupmisc(ctx, quick):
                 ctx.violation('X01:group_algebra_product:exception', type(ex).__name__ + ': ' + str(ex)[:160], dict(group=name))
 
 
+def run_closed_gme(ctx):
+    """MC_ClosedGME: closed-form geometric measures of W-type and Dicke states against the exact rational values"""
+    import numqi
+    r = tlc.run('extra/MC_ClosedGME.tla', 'extra/MC_ClosedGME.cfg', dump=True, timeout=1200)
+    ctx.add_model('MC_ClosedGME', r)
+    for st in tlc.parse_dump(r):
+        want = st['val'][0] / st['val'][1]
+        ctx.case(('closedgme', st['kind'], tuple(st['arg'])))
+        try:
+            if st['kind'] == 'wtype':
+                A, B, C = st['arg']
+                t = A + B + C
+                got = numqi.state.get_Wtype_state_GME(math.sqrt(A / t), math.sqrt(B / t), math.sqrt(C / t))
+            else:
+                got = numqi.state.get_qubit_dicke_state_GME(*st['arg'])
+            if core.gt(abs(float(got) - want), 1e-9):
+                ctx.violation('X01:closed-gme:%s' % st['kind'], 'closed-form geometric measure %r differs from the exact value %d/%d (arguments %s)' % (float(got), st['val'][0], st['val'][1], st['arg']), dict(kind=st['kind'], arg=list(st['arg'])))
+            ctx.traces += 1
+        except Exception as ex:
+            ctx.violation('X01:closed-gme:exception', type(ex).__name__ + ': ' + str(ex)[:160], dict(kind=st['kind'], arg=list(st['arg'])))
+
+
 def run(ctx):
     quick = ctx.tier == 'quick'
     ctx.rule = ('beyond the listed properties: Weyl-Heisenberg matrices d = 2, 4, 8 (commutation, order, Fourier relation as TLC invariants); symplectic Gram-Schmidt over F2 for every list of '
@@ -338,6 +360,7 @@ def run(ctx):
     run_symbasis(ctx, quick)
     run_schurweyl(ctx, quick)
     run_groupmisc(ctx, quick)
+    run_closed_gme(ctx)
     ctx.sample(dict(kind='extra-models', models=[m['model'] for m in ctx.models]))
 
 
